@@ -212,3 +212,136 @@ def w2b(prog):
     if n < 5:
         raise Broken("only %d ELF-domain constants built from symbol fields found (floor 5)" % n)
     return inst, findings
+
+
+# ---------------------------------------------------------------------------
+# W3: completeness and order of `symbol`, by evaluating symbol_producer (constructor, next_module, next) and the module
+# iterator it walks (dwit.cc) from their source against an abstract libdwfl: a list of modules, each with a symbol count.
+# The producer touches the tables only through counts and indices, so module lists with the counts {0, 1, 2, 3} in
+# every order up to three modules realise all its comparisons (first/last index, empty table, table following a longer
+# or a shorter one, no module at all).
+
+def w3(prog, tier="quick"):
+    import itertools
+    from cxxobj import CxxEvaluator, Struct, Obj, OutOfBounds, Ptr, VarPtr
+    from absint import Thrown
+    inst, findings = [], []
+    cls = "(anonymous namespace)::symbol_producer"
+    ctors = [f for f in prog.funcs.values() if f.get("cls") == cls and f["n"] == "symbol_producer" and f.get("body") is not None]
+    nexts = [f for f in prog.funcs.values() if f.get("cls") == cls and f["n"] == "next" and f.get("body") is not None]
+    if len(ctors) != 1 or len(nexts) != 1:
+        raise Broken("anchor symbol_producer (constructor / next) vanished")
+    SYM_FIELDS = ["st_name", "st_info", "st_other", "st_shndx", "st_value", "st_size"]
+
+    class Mod:
+        def __init__(self, k, n):
+            self.k, self.n = k, n
+
+        @property
+        def addr(self):
+            return 0x1000 + self.k
+
+        def __repr__(self):
+            return "module%d(%d symbols)" % (self.k, self.n)
+
+    class Dwfl:
+        def __init__(self, counts):
+            self.mods = [Mod(k, n) for k, n in enumerate(counts)]
+
+        @property
+        def addr(self):
+            return 0x10
+
+    def getmodules(ev, o, a):
+        dwfl, cb, arg, off = a
+        off = int(off)
+        while 0 <= off < len(dwfl.mods):
+            rc = ev.call(cb, None, [dwfl.mods[off], None, Ptr([ord("m"), 0], 0), 0, arg])
+            off += 1
+            if isinstance(rc, tuple):
+                rc = rc[2]
+            if rc != 0:          # DWARF_CB_ABORT: stop and report where to resume
+                return off
+        return 0
+
+    def getsym_info(ev, o, a):
+        mod, idx = a[0], int(a[1])
+        if not isinstance(mod, Mod):
+            raise OutOfBounds("dwfl_module_getsym_info on a null module")
+        if not (0 <= idx < mod.n):
+            return None                      # libdwfl reports an error for an index outside the table
+        sym = a[2]
+        if isinstance(sym, Struct):
+            for f_ in SYM_FIELDS:
+                setattr(sym, f_, 0)
+            sym.st_value = (mod.k << 16) | idx
+            sym.st_size = idx + 1
+        for p in a[3:]:
+            if isinstance(p, VarPtr):
+                p.store(0)
+        return Ptr([ord(c) for c in "s%d_%d" % (mod.k, idx)] + [0], 0)
+
+    def mk_symbol(ev, o, a):
+        dwctx, sym, name, symidx, pos, d = a
+        return {"st_value": sym.st_value if isinstance(sym, Struct) else None, "name": name.cstr() if isinstance(name, Ptr) else None,
+                "symidx": symidx, "pos": pos}
+
+    def thrower(ev, o, a):
+        raise Thrown("libdwfl error")
+    dwctx = Obj("dwfl_context")
+    hooks = {
+        "dwfl_context::get_dwfl": lambda ev, o, a: o.dwfl,
+        "dwfl_getmodules": getmodules,
+        "dwfl_module_getsymtab": lambda ev, o, a: a[0].n if isinstance(a[0], Mod) else (_ for _ in ()).throw(OutOfBounds("dwfl_module_getsymtab on a null module")),
+        "dwfl_module_getsym_info": getsym_info,
+        "throw_libdwfl": thrower,
+        "std::make_unique<value_symbol*": mk_symbol,
+    }
+    ev = CxxEvaluator(hooks, {}, prog=prog, structs={"Elf64_Sym": SYM_FIELDS})
+    cfgs = [()]
+    vals = (0, 1, 2, 3) if tier == "thorough" else (0, 1, 3)
+    for n in (1, 2, 3):
+        cfgs += list(itertools.product(vals, repeat=n))
+    key = "W3:symbol_producer"
+    n_eval = 0
+    for counts in cfgs:
+        dwctx.dwfl = Dwfl(counts)
+        want = [(k, i) for k, n in enumerate(counts) for i in range(n)]
+        what = "`symbol` on a file with symbol tables of %s entries" % (list(counts),)
+        try:
+            prod = ev.construct(ctors[0], Obj(cls), [dwctx, ("enum", "raw", 0)])
+            got = []
+            for _ in range(len(want) + 3):
+                v = ev.call(nexts[0], prod, [])
+                n_eval += 1
+                if v is None:
+                    break
+                got.append(v)
+            else:
+                findings.append({"key": key, "where": "libzwerg/" + nexts[0]["l"], "msg": "%s keeps yielding after all %d entries were reported" % (what, len(want)), "detail": None})
+                break
+            again = ev.call(nexts[0], prod, [])
+        except OutOfBounds as x:
+            findings.append({"key": key, "where": "libzwerg/" + nexts[0]["l"], "msg": "%s: %s" % (what, x), "detail": None})
+            break
+        except Thrown as x:
+            findings.append({"key": key, "where": "libzwerg/" + nexts[0]["l"], "msg": "%s raises an error (%s) although every table is readable" % (what, x), "detail": None})
+            break
+        seq = [(g["st_value"] >> 16, g["st_value"] & 0xffff) if g["st_value"] is not None else None for g in got]
+        prob = None
+        if seq != want:
+            missing = [w for w in want if w not in seq]
+            prob = "yields the entries (table, index) %s; the tables hold %s%s" % (seq, want, (": %d entries are never reported" % len(missing)) if missing else "")
+        elif [g["pos"] for g in got] != list(range(len(got))):
+            prob = "numbers its results %s instead of 0, 1, 2, ..." % [g["pos"] for g in got]
+        elif [g["symidx"] for g in got] != [i for _, i in want]:
+            prob = "reports the table indices %s for the entries %s" % ([g["symidx"] for g in got], want)
+        elif [g["name"] for g in got] != ["s%d_%d" % w for w in want]:
+            prob = "pairs entries with the wrong names: %s" % [g["name"] for g in got]
+        elif again is not None:
+            prob = "yields another value after it reported exhaustion"
+        if prob:
+            findings.append({"key": key, "where": "libzwerg/" + nexts[0]["l"], "msg": "%s %s" % (what, prob), "detail": None})
+            break
+    inst.append((key, {"module_lists": len(cfgs), "next_calls": n_eval}))
+    return inst, findings
